@@ -96,11 +96,14 @@ IsBundleTerm(D, m, t) ==
   \/ t.k = "bref" /\ SubBundle(D, BundOf(m, t.root), t.path) # ""
   \/ t.k = "pref" /\ Formal(D, InstOf(m, t.inst).of, t.port).bund # ""
 
+(* an instance bundle stands for one instance per signal of its bundle type: h.Pair is the one over Diff (p, n); others, made with
+   h.InstanceBundleType, carry the member names of their bundle in `members` *)
+PairMembers(inst) == IF "members" \in DOMAIN inst THEN inst.members ELSE <<"p", "n">>
 (* element instances an instance-like stands for *)
 Elems(inst) == CASE inst.kind = "inst"  -> <<inst.n>>
                  [] inst.kind = "array" -> [k \in 1..inst.arr |-> inst.n \o "_" \o ToString(k - 1)]
-                 [] inst.kind = "pair"  -> <<inst.n \o "_p", inst.n \o "_n">>
-PairLeaf(k) == IF k = 1 THEN <<"p">> ELSE <<"n">>
+                 [] inst.kind = "pair"  -> [k \in 1..Len(PairMembers(inst)) |-> inst.n \o "_" \o PairMembers(inst)[k]]
+PairLeaf(inst, k) == <<PairMembers(inst)[k]>>
 
 ConnEdges(D, m, path, inst, c) ==
   LET f   == Formal(D, inst.of, c.p)
@@ -116,8 +119,8 @@ ConnEdges(D, m, path, inst, c) ==
                           IN { <<F[b], A[b]>> : b \in 1..lf.w } : l \in 1..Len(Leaves(D, f.bund)) } : k \in 1..Len(es) }
      ELSE IF inst.kind = "pair" /\ IsBundleTerm(D, m, c.t)
      THEN UNION { LET F == SigBits(Append(path, es[k]), c.p, f.w)
-                      A == TB(D, m, path, c.t, PairLeaf(k), f.w, ctx)
-                  IN { <<F[b], A[b]>> : b \in 1..f.w } : k \in 1..2 }
+                      A == TB(D, m, path, c.t, PairLeaf(inst, k), f.w, ctx)
+                  IN { <<F[b], A[b]>> : b \in 1..f.w } : k \in 1..Len(es) }
      ELSE LET A == TB(D, m, path, c.t, <<>>, f.w, ctx) IN
           UNION { LET F  == SigBits(Append(path, es[k]), c.p, f.w)
                       Ak == IF Len(A) = f.w THEN A ELSE SubSeq(A, (k - 1) * f.w + 1, k * f.w)
